@@ -715,7 +715,7 @@ def in_domain(code):
 
 
 def brief(case, obs):
-    o = {k: v for k, v in obs.items() if k in ('wcode', 'wexc', 'rcode', 'rexc', 'w2exc', 'r2exc', 'w3exc', 'py_diffs', 'build_exc')}
+    o = {k: v for k, v in obs.items() if k in ('wcode', 'wexc', 'rcode', 'rexc', 'w2exc', 'r2exc', 'w3exc', 'py_diffs', 'enc_diffs', 'build_exc')}
     for k in ('file1', 'file2', 'file3'):
         if k in obs:
             o[k] = obs[k][:1500]
@@ -726,6 +726,8 @@ def decide(ctx, case, obs, code, probs, from_corpus):
     """turn one evaluated case into failure / mismatch entries; returns a label for the distribution"""
     info = brief(case, obs)
     info['from_corpus'] = from_corpus
+    if obs.get('enc_diffs'):
+        ctx.failure('C13/read_csv/encoding named by another spelling', '; '.join(obs['enc_diffs'][:4]), info)
     if case['kind'] == 'round':
         if obs.get('build', 0) != 0:
             ctx.infra_problem('generated WBS could not be built through the API: %s' % obs.get('build_exc'))
